@@ -800,9 +800,50 @@ func TestSizeSweep(t *testing.T) {
 			cs.Op = "writefault" // FaultKind "" = clean run: stream bytes == buffered bytes, CID of the sink
 			prop.One(t, cs)
 			n++
+			// and a fault at the first, the last and the last-but-one Write call of that artefact size
+			n += writeFaultsAtEnds(t, base)
+		}
+	}
+	// containers of 2..16 small tokens (the total size, not a single entry, crosses buffer thresholds)
+	for cnt := 2; cnt <= 16; cnt++ {
+		var set []tok.Tok
+		for i := 0; i < cnt; i++ {
+			set = append(set, tok.Tok{Dlg: &tok.Dlg{Iss: tok.KeyRef{Alg: keys.Ed25519, Idx: i % 4}, Aud: tok.KeyRef{Alg: keys.Ed25519, Idx: (i + 1) % 4}, Sub: "iss", Cmd: "/sweep",
+				Nonce: []byte(fmt.Sprintf("sweep-nonce-%03d", i))}})
+		}
+		for _, art := range []string{"car", "carb64", "cbor", "cborb64"} {
+			n += writeFaultsAtEnds(t, Case{Toks: set, Art: art})
 		}
 	}
 	P.SetExtra("size_sweep_cases", n)
+}
+
+// writeFaultsAtEnds injects a write fault (failure, short write) at the first, last and last-but-one Write call
+// that a clean run of the artefact makes.
+func writeFaultsAtEnds(t *testing.T, base Case) int {
+	b, ok := buildArtefact(base)
+	if !ok {
+		return 0
+	}
+	clean := &faultWriter{failAt: -1}
+	if _, err := writeStream(base, b, clean); err != nil || clean.calls == 0 {
+		return 0
+	}
+	n := 0
+	seen := map[int]bool{}
+	for _, k := range []int{0, clean.calls - 1, clean.calls - 2, clean.calls / 2} {
+		if k < 0 || seen[k] {
+			continue
+		}
+		seen[k] = true
+		for _, fk := range []string{"fail", "short"} {
+			cs := base
+			cs.Op, cs.FaultKind, cs.K = "writefault", fk, k
+			prop.One(t, cs)
+			n++
+		}
+	}
+	return n
 }
 
 // ---------- overlapping stream reads (race-detector build) ----------
